@@ -1,7 +1,8 @@
 #!/bin/bash
 # run confirm + quick check for every delivered seed that has no result yet (sequential)
 cd /verif
-for d in /tmp/seed/C*/_out/[ab]; do
+LIST=$(ls -d /tmp/seed/C*/_out/[ab]); [ "$1" = rev ] && LIST=$(echo "$LIST" | tac)
+for d in $LIST; do
   [ -f "$d/patch.diff" ] && [ -f "$d/demo.py" ] || continue
   id=$(echo "$d" | sed 's|/tmp/seed/\(C[0-9]*\)/_out/\([ab]\)|\1|'); v=$(basename "$d")
   out=.gen/seedres/${id}_$v.txt
